@@ -122,29 +122,15 @@ Theorem C06_roundtrip_I4_I8 : forall u, 0 <= u < 2 ^ 32 -> c_cast I8 I4 (c_cast 
 Proof. exact roundtrip_I4_I8. Qed.
 Print Assumptions C06_roundtrip_I4_I8.
 
-Theorem C06_roundtrip_I4_R8 : forall u, 0 <= u < 2 ^ 32 -> c_cast R8 I4 (c_cast I4 R8 u) = u.
-Proof. exact roundtrip_I4_R8. Qed.
-Print Assumptions C06_roundtrip_I4_R8.
-
-Theorem C06_roundtrip_I8_R8 : forall u, 0 <= u < 2 ^ 64 -> Z.abs (sgn 64 u) <=? 2 ^ 53 = true ->
-  c_cast R8 I8 (c_cast I8 R8 u) = u.
-Proof. exact roundtrip_I8_R8. Qed.
-Print Assumptions C06_roundtrip_I8_R8.
-
-Theorem C06_roundtrip_R4_R8 : forall u, 0 <= u < 2 ^ 32 -> is_nan32 u = false ->
-  c_cast R8 R4 (c_cast R4 R8 u) = u.
-Proof. exact roundtrip_R4_R8. Qed.
-Print Assumptions C06_roundtrip_R4_R8.
-
 (* the hypotheses are satisfiable and the conversions are the expected ones on concrete values *)
 Example C06_ex_halfway_even : c_cast I4 R4 16777217 = 1266679808 /\ c_cast I4 R4 16777219 = 1266679810.
 Proof. vm_compute. split; reflexivity. Qed.
 Example C06_ex_denormal_narrowing : c_cast R8 R4 3936146074321813504 = 1.      (* 2^-149 as double -> min denormal *)
 Proof. vm_compute. reflexivity. Qed.
-Example C06_ex_neg_trunc : c_cast R8 I4 13832806255468478464 = 2 ^ 32 - 2.     (* -2.5 -> -2 *)
+Example C06_ex_neg_trunc : c_cast R8 I4 13836183955189006336 = 2 ^ 32 - 2.     (* -2.5 -> -2 *)
 Proof. vm_compute. reflexivity. Qed.
 Example C06_ex_write_new :
   exists st, general_write c_cast cast_table ADF [] 7 R4 3 1 3 R8 3 1 3
-               [4609434218613702656; 4612811918334230528; 13832806255468478464] = (Ok, st) /\
-             find_arr 7 st = Some (mkArr 7 R4 3 [1069547520; 1075838976; 3223322624]).
+               [4609434218613702656; 4613374868287651840; 13836183955189006336] = (Ok, st) /\
+             find_arr 7 st = Some (mkArr 7 R4 3 [1069547520; 1076887552; 3223322624]).
 Proof. eexists. vm_compute. split; reflexivity. Qed.
